@@ -145,4 +145,9 @@ def scalingRaises (S : List (List Int)) (w : List Fl) (nProbCoords nSevCoords : 
   probs.any (fun p => Fl.ge p (Fl.fin 1)) || probs.any (fun p => Fl.le p (Fl.fin 0)) ||
   w.any (fun x => Fl.le x (Fl.fin 0))
 
+/-- `weights_from_warning_scaling` after its input checks: the Appendix-B weight matrix labelled by `matrix_weights_to_array`
+    (rows ↔ probability thresholds in decreasing order, columns ↔ the severity labels in the supplied order) -/
+def weightsFromWarningScaling (S : List (List Nat)) (w : List Fl) (sev : List String) (probs : List Rat) : Option WeightArray :=
+  matrixWeightsToArray (scalingToWeightMatrix S w) sev probs
+
 end SV.Model.Firm
